@@ -1,10 +1,14 @@
 from cfg.common import FLOAT_ASSUMPTION, NOTE_COMMON
+from cfg.train_kernels_pre import (regen as regen_train_kernels, TRAIN_KERNEL_THEOREMS_FOR, TRAIN_KERNEL_TRUSTED,
+                                   TRAIN_KERNEL_ASSUMPTION)
 
 PROP = {
     'anchors': [('train/set_speed_train_sim.rs', 'solve_step'), ('train/set_speed_train_sim.rs', 'solve_required_pwr'), ('train/set_speed_train_sim.rs', 'mean'), ('train/set_speed_train_sim.rs', 'dt')],
     'blocks': ['train'],
-    'proof_modules': ['C14'],
-    'namespaces': ['Altrios.Proofs.C14'],
+    'pre': [regen_train_kernels],
+    'trusted_extra': [TRAIN_KERNEL_TRUSTED],
+    'proof_modules': ['C14', 'TrainKernels'],
+    'namespaces': ['Altrios.Proofs.C14', 'Altrios.Proofs.TrainKernels'],
     'required_theorems': [
         'Altrios.Proofs.C14.C14_power',
         'Altrios.Proofs.C14.C14_clip',
@@ -13,17 +17,17 @@ PROP = {
         'Altrios.Proofs.C14.C14_accepted_nonneg',
         'Altrios.Proofs.C14.C14_walk_samples_nonneg',
         'Altrios.Proofs.C14.C14_follows_trace',
-    ],
+    ] + TRAIN_KERNEL_THEOREMS_FOR['C14'],
     'nontrivial_stats': ['train.ss.clipped', 'train.ss.unclipped'],
     'rule': 'each evaluation is one real SetSpeedTrainSim step (whole solve_step and its parts) on traces with irregular time '
             'stamps, stop-and-go and both clips saturated; non-trivial = accepted steps (clipped and unclipped counted separately)',
-    'assumptions': [FLOAT_ASSUMPTION],
+    'assumptions': [FLOAT_ASSUMPTION] + [TRAIN_KERNEL_ASSUMPTION],
 }
 
 TEXT = {
     'design_ref': '§7.11',
     'note': NOTE_COMMON,
-    'technique': 'Lean 4 proof (kinetic-energy identity, clamp algebra) + bit-exact correspondence',
+    'technique': 'Lean 4 proof (kinetic-energy identity, clamp algebra) + bit-exact correspondence + translator tie (the straight-line train kernels are re-translated from the Rust text on every run and proved equal to the model)',
     'text': ('Kernel-checked: an accepted step has time and speed equal to the trace sample; wheel power = d/dt(1/2 m_compound v^2) + res_net * mean speed clamped to '
              '[-max(dyn_brake_max,0), min(out_max, max(0, prev + rate*dt_prev))], unclipped iff the raw demand is inside (C14_power, C14_clip); energies advance by that power '
              'times the trace step; the same power and step size are handed to the consist (C14_follows_trace); every sample of an accepted walk, including the first, is '
